@@ -5,6 +5,7 @@ package main
 import (
 	"fmt"
 	"reflect"
+	"strconv"
 	"time"
 )
 
@@ -42,7 +43,7 @@ type indInput struct {
 	Hung   bool       `json:"hung"`
 }
 
-const flowHeader = "From Coq Require Import Floats ZArith List String.\nImport ListNotations.\nFrom Verif Require Import Base.Num Base.Stream Base.GenPrelude Gen.All Spec.Admissible Run.FlowRun %s.\nOpen Scope float_scope.\n"
+const flowHeader = "From Coq Require Import Floats ZArith List String.\nImport ListNotations.\nFrom Verif Require Import Base.Num Base.Stream Base.GenPrelude Gen.All Spec.Admissible Gen.AdmStrat Run.FlowRun %s.\nOpen Scope float_scope.\n"
 
 // goIdle calls IdlePeriod when the type has one (-1 otherwise).
 func goIdle(inst reflect.Value) int {
@@ -55,10 +56,6 @@ func goIdle(inst reflect.Value) int {
 
 func (c *Ctx) indCase(typeKey string, sp Spec, n int, withValues bool) bool {
 	t := genTypes[typeKey]
-	inst, cfg, err := sp.Build()
-	if err != nil {
-		panic(err)
-	}
 	bars, reg := c.randBars(n)
 	g1, reg2 := c.randSeries(n)
 	g2, _ := c.randSeries(n)
@@ -66,6 +63,40 @@ func (c *Ctx) indCase(typeKey string, sp Spec, n int, withValues bool) bool {
 		reg = reg2
 	}
 	inputs := inputsFor(t.InNames, bars, [][]float64{g1, g2})
+	return c.indCaseWith(typeKey, sp, inputs, reg, withValues)
+}
+
+// replayInd re-runs a recorded case on exactly its recorded inputs.
+func (c *Ctx) replayInd(in indInput, withValues bool) {
+	inputs := make([][]float64, len(in.Inputs))
+	for i, col := range in.Inputs {
+		inputs[i] = parseF(col)
+	}
+	c.indCaseWith(in.Type, in.Spec, inputs, in.Regime, withValues)
+}
+
+func parseF(col []string) []float64 {
+	out := make([]float64, len(col))
+	for j, sv := range col {
+		v, err := strconv.ParseFloat(sv, 64)
+		if err != nil {
+			panic(err)
+		}
+		out[j] = v
+	}
+	return out
+}
+
+func (c *Ctx) indCaseWith(typeKey string, sp Spec, inputs [][]float64, reg string, withValues bool) bool {
+	t := genTypes[typeKey]
+	inst, cfg, err := sp.Build()
+	if err != nil {
+		panic(err)
+	}
+	n := 0
+	if len(inputs) > 0 {
+		n = len(inputs[0])
+	}
 	outs, hung := runIndicator(inst, inputs, 400*time.Millisecond)
 	lens := make([]int, len(outs))
 	for i, o := range outs {
@@ -117,7 +148,7 @@ func runC02(c *Ctx) error {
 		if err := readReplayInput(c.Replay, &in); err != nil {
 			return err
 		}
-		c.indCase(in.Type, in.Spec, in.N, false)
+		c.replayInd(in, false)
 		return nil
 	}
 	cfgs := c.N(3, 12)
